@@ -21,7 +21,7 @@ import (
 )
 
 // GovOp is one generated governance transaction for the L2 ledger, really signed.
-//   regcand A            pool account 10+A registers itself as candidate
+//   regcand A [L]        pool account 10+A registers itself as candidate (L>0: registered by the separate owner account 50+L)
 //   approvecand A V      validator V (index into the genesis validators) approves candidate A
 //   black A V / white A V / quit A
 //   commit               commitDpos witnessed by the operator multisig of the current consensus peers
@@ -144,8 +144,13 @@ func (c *Chain) GovTx(o GovOp) *types.Transaction {
 	switch o.Op {
 	case "regcand":
 		a := cand(o.A)
-		p := &node_manager.RegisterPeerParam{PeerPubkey: world.PubHex(a), Address: a.Address}
-		return c.SignedTx(nm, node_manager.REGISTER_CANDIDATE, ser(p.Serialization), pick(a))
+		owner := a
+		if o.L > 0 {
+			// the peer's owner (the wallet that registers and later quits the node) is a different account than the node key
+			owner = world.Acct(50 + o.L%10)
+		}
+		p := &node_manager.RegisterPeerParam{PeerPubkey: world.PubHex(a), Address: owner.Address}
+		return c.SignedTx(nm, node_manager.REGISTER_CANDIDATE, ser(p.Serialization), pick(owner))
 	case "approvecand":
 		v := val(o.V)
 		p := &node_manager.PeerParam{PeerPubkey: world.PubHex(cand(o.A)), Address: v.Address}
